@@ -246,3 +246,17 @@ class _SV:
 
 def pyh_sv(state, covariance):
     return _SV(state, covariance)
+
+
+# ------------------------------------------------------------------------------------------- history dimension helpers
+
+
+def second_env(env, suffix="__2", keep=()):
+    """A second, independent set of input variables (same names + suffix) for a later call on the same object.
+    Names in `keep` (e.g. calibration, which is fixed at construction) are shared."""
+    return {n: (v if n in keep else z3.Real(v.decl().name() + suffix)) for n, v in env.items()}
+
+
+def subst_env(term, env, env2):
+    pairs = [(env[n], env2[n]) for n in env if not env[n].eq(env2[n])]
+    return z3.substitute(term, *pairs) if pairs else term
